@@ -170,11 +170,24 @@ def metaOf (j : Json) : D MetaCfg := do
   let tk ← optField j "tag_key" strOf
   let aat ← optField j "auto_assign_tags" (fun v => v.getBool?)
   let rc ← optField j "recursive_classes" (fun v => v.getBool?)
+  let v1 ← optField j "v1" (fun v => v.getBool?)
+  let v1kc ← optField j "v1_key_case" (fun v => do
+    match (← v.getStr?) with
+    | "CAMEL" | "C" => pure KeyCaseOpt.camel | "PASCAL" | "P" => pure KeyCaseOpt.pascal
+    | "KEBAB" | "K" => pure KeyCaseOpt.kebab | "SNAKE" | "S" => pure KeyCaseOpt.snake
+    | "AUTO" | "A" => pure KeyCaseOpt.auto
+    | x => throw s!"bad key case {x}")
+  let v1ou ← optField j "v1_on_unknown_key" (fun v => do
+    match (← v.getStr?) with
+    | "IGNORE" => pure KeyAct.ignore | "RAISE" => pure KeyAct.raise | "WARN" => pure KeyAct.warn
+    | x => throw s!"bad key action {x}")
+  let v1u ← optField j "v1_unsafe_parse_dataclass_in_union" (fun v => v.getBool?)
   let tag ← optField j "tag" strOf
   let recur ← optField j "recursive" (fun v => v.getBool?)
   pure { keyTransformLoad := ktl, keyTransformDump := ktd, marshalTimestamp := mts, skipDefaults := sd,
          skipIf := si, skipDefaultsIf := sdi, raiseOnUnknown := rou, tagKey := tk, autoAssignTags := aat,
-         recursiveClasses := rc, tag := tag, recursive := recur }
+         recursiveClasses := rc, tag := tag, recursive := recur,
+         v1 := v1, v1KeyCase := v1kc, v1OnUnknown := v1ou, v1Unsafe := v1u }
 
 def dfltOf (j : Json) : D Dflt := do
   let a ← arrOf j
